@@ -1065,6 +1065,15 @@ def buffer_bytes(au, rec):
     return f["bits"] // 8
 
 
+# objects are zero-filled at birth: the functions of these units rely on it for every field their constructors do not store
+_run_clauses = run
+
+
+def run(prog, rep):
+    _run_clauses(prog, rep)
+    from plint.wiring import check_zero_init
+    check_zero_init(rep, "C11.6", prog, ['pcryptohash.c', 'pcryptohash-md5.c', 'pcryptohash-sha1.c', 'pcryptohash-sha2-256.c', 'pcryptohash-sha2-512.c', 'pcryptohash-sha3.c', 'pcryptohash-gost3411.c'], 7)
+
 # generic robustness battery: renaming every local/parameter in these files must not change any verdict
 RENAME_LOCALS = ['src/pcryptohash.c', 'src/pcryptohash-sha3.c']   # md5/sha1 use unhygienic round macros that name the locals
 
